@@ -1,6 +1,7 @@
 (* Lemmas for C15, the dual DHT's decision logic (Model/Dual.v). *)
 From Verif.Lib Require Import GoSem Bits.
 From Verif.Model Require Import AddrClass Dual.
+From Verif.Proofs Require Import AddrClassProofs.
 From Coq Require Import Lia ZifyBool ZifyNat ZifyN.
 
 (* ---- write routing ------------------------------------------------------------------- *)
@@ -320,4 +321,212 @@ Lemma combine_errors_spec :
 Proof.
   split; [exact combine_same_sentinel|]. split; [exact combine_lookup_failure_l|].
   split; [exact combine_lookup_failure_r|exact combine_distinct].
+Qed.
+
+(* ---- provider records: what the three provider-message sites store / attach ------------------- *)
+
+(* the address filter of a DHT kind as a predicate *)
+Definition keeps (s : side) (a : maddr) : bool :=
+  match s with WAN => manet_is_public a | LAN => negb (is_ip_loopback a) end.
+
+Lemma addr_filter_keeps : forall s l a, In a (addr_filter s l) <-> In a l /\ keeps s a = true.
+Proof. intros [] l a; unfold addr_filter, keeps; apply filter_In. Qed.
+
+Lemma keeps_wan : forall a, keeps WAN a = true -> manet_is_public a = true /\ is_ip_loopback a = false.
+Proof.
+  intros a H. simpl in H. split; [exact H|].
+  destruct (is_ip_loopback a) eqn:E; [|reflexivity].
+  destruct (loopback_not_public a E) as [_ [P _]]. congruence.
+Qed.
+
+Lemma keeps_lan : forall a, keeps LAN a = true <-> is_ip_loopback a = false.
+Proof. intro a. simpl. destruct (is_ip_loopback a); simpl; split; congruence. Qed.
+
+Lemma in_firstn : forall (A : Type) n (l : list A) x, In x (firstn n l) -> In x l.
+Proof.
+  intros A n. induction n as [|n IH]; intros [|y l] x H; simpl in *; try contradiction.
+  destruct H as [H|H]; [left; exact H|right; apply IH; exact H].
+Qed.
+
+(* handleAddProvider + ProviderManager.AddProvider: exactly the filtered addresses of the
+   sender's own non-empty entries are written, under the sender's id, unless the sender is self *)
+Lemma add_provider_writes_spec : forall s key_ok self sender msg q a,
+  In (q, a) (add_provider_writes s key_ok self sender msg) <->
+  key_ok = true /\ q = sender /\ q <> self /\ keeps s a = true /\
+  exists e, In e msg /\ pe_id e = q /\ In a (pe_addrs e).
+Proof.
+  intros s key_ok self sender msg q a. unfold add_provider_writes, add_provider_calls. split.
+  - intro H. apply in_flat_map in H. destruct H as [c [Hc Hw]].
+    destruct key_ok; [|contradiction].
+    apply in_map_iff in Hc. destruct Hc as [e [Hfe He]]. apply filter_In in He. destruct He as [He Hacc].
+    unfold add_provider_accepts in Hacc. apply andb_true_iff in Hacc. destruct Hacc as [Hid _].
+    apply Nat.eqb_eq in Hid.
+    unfold pm_writes in Hw. destruct (Nat.eqb (pe_id c) self) eqn:Hself; [contradiction|].
+    apply Nat.eqb_neq in Hself.
+    apply in_map_iff in Hw. destruct Hw as [a' [Hpair Ha']]. inversion Hpair; subst a' q. clear Hpair.
+    subst c. simpl in *. apply addr_filter_keeps in Ha'. destruct Ha' as [Hin Hk].
+    repeat split; try assumption. exists e. repeat split; assumption.
+  - intros [Hk [Hq [Hns [Hkeep [e [He [Hid Ha]]]]]]]. subst key_ok. subst q.
+    apply in_flat_map. exists (filter_entry s e). split.
+    + apply in_map. apply filter_In. split; [exact He|].
+      unfold add_provider_accepts. rewrite Hid, Nat.eqb_refl. simpl.
+      destruct (pe_addrs e); [contradiction|reflexivity].
+    + unfold pm_writes. simpl. rewrite Hid.
+      destruct (Nat.eqb sender self) eqn:E; [apply Nat.eqb_eq in E; contradiction|].
+      apply in_map. apply addr_filter_keeps. split; assumption.
+Qed.
+
+Lemma add_provider_recorded_spec : forall s key_ok sender msg q,
+  In q (add_provider_recorded s key_ok sender msg) <->
+  key_ok = true /\ q = sender /\ exists e, In e msg /\ pe_id e = sender /\ pe_addrs e <> [].
+Proof.
+  intros s key_ok sender msg q. unfold add_provider_recorded, add_provider_calls. split.
+  - intro H. destruct key_ok; [|contradiction]. rewrite map_map in H. simpl in H.
+    apply in_map_iff in H. destruct H as [e [Hq He]]. apply filter_In in He. destruct He as [He Hacc].
+    unfold add_provider_accepts in Hacc. apply andb_true_iff in Hacc. destruct Hacc as [Hid Hne].
+    apply Nat.eqb_eq in Hid. repeat split; [congruence|]. exists e. repeat split; try assumption.
+    destruct (pe_addrs e); [discriminate|discriminate].
+  - intros [Hk [Hq [e [He [Hid Hne]]]]]. subst key_ok q. rewrite map_map. simpl.
+    apply in_map_iff. exists e. split; [exact Hid|]. apply filter_In. split; [exact He|].
+    unfold add_provider_accepts. rewrite Hid, Nat.eqb_refl. simpl. destruct (pe_addrs e); [contradiction|reflexivity].
+Qed.
+
+(* handleGetProviders *)
+Lemma get_providers_attached_sound : forall s key_ok fit provs r a,
+  In r (get_providers_attached s key_ok fit provs) -> In a (pe_addrs r) ->
+  key_ok = true /\ keeps s a = true /\ exists e, In e provs /\ pe_id e = pe_id r /\ In a (pe_addrs e).
+Proof.
+  intros s key_ok fit provs r a Hr Ha. unfold get_providers_attached in Hr.
+  destruct key_ok; [|contradiction]. apply in_firstn in Hr. apply in_map_iff in Hr.
+  destruct Hr as [e [Hfe He]]. subst r. simpl in *. apply addr_filter_keeps in Ha. destruct Ha as [Hin Hk].
+  repeat split; try assumption. exists e. repeat split; assumption.
+Qed.
+
+Lemma get_providers_attached_complete : forall s fit provs e a,
+  (length provs <= fit)%nat -> In e provs -> In a (pe_addrs e) -> keeps s a = true ->
+  exists r, In r (get_providers_attached s true fit provs) /\ pe_id r = pe_id e /\ In a (pe_addrs r).
+Proof.
+  intros s fit provs e a Hfit He Ha Hk. unfold get_providers_attached.
+  rewrite firstn_all2 by (rewrite map_length; exact Hfit).
+  exists (filter_entry s e). split; [apply in_map; exact He|]. split; [reflexivity|].
+  simpl. apply addr_filter_keeps. split; assumption.
+Qed.
+
+(* every provider of the store is attached (with or without addresses) when all fit *)
+Lemma get_providers_attached_ids : forall s fit provs, (length provs <= fit)%nat ->
+  map pe_id (get_providers_attached s true fit provs) = map pe_id provs.
+Proof.
+  intros s fit provs Hfit. unfold get_providers_attached.
+  rewrite firstn_all2 by (rewrite map_length; exact Hfit). rewrite map_map. reflexivity.
+Qed.
+
+(* findProvidersAsyncRoutine / maybeAddAddrs *)
+Lemma find_providers_writes_spec : forall s self connected processed q a,
+  In (q, a) (find_providers_writes s self connected processed) <->
+  q <> self /\ connected q = false /\ keeps s a = true /\
+  exists e, In e processed /\ pe_id e = q /\ In a (pe_addrs e).
+Proof.
+  intros s self connected processed q a. unfold find_providers_writes. split.
+  - intro H. apply in_flat_map in H. destruct H as [e [He Hw]].
+    destruct (Nat.eqb (pe_id e) self) eqn:Hself; simpl in Hw; [contradiction|].
+    destruct (connected (pe_id e)) eqn:Hc; [contradiction|].
+    apply Nat.eqb_neq in Hself. apply in_map_iff in Hw. destruct Hw as [a' [Hpair Ha']].
+    inversion Hpair; subst a' q. clear Hpair. apply addr_filter_keeps in Ha'. destruct Ha' as [Hin Hk].
+    repeat split; try assumption. exists e. repeat split; assumption.
+  - intros [Hns [Hc [Hk [e [He [Hid Ha]]]]]]. subst q. apply in_flat_map. exists e. split; [exact He|].
+    destruct (Nat.eqb (pe_id e) self) eqn:E; [apply Nat.eqb_eq in E; contradiction|]. rewrite Hc. simpl.
+    apply in_map. apply addr_filter_keeps. split; assumption.
+Qed.
+
+(* ---- the statements used by Props/C15.v ---- *)
+
+Lemma wan_add_provider_spec : forall key_ok self sender msg,
+  (forall q a, In (q, a) (add_provider_writes WAN key_ok self sender msg) ->
+     key_ok = true /\ q = sender /\ q <> self /\
+     (exists e, In e msg /\ pe_id e = q /\ In a (pe_addrs e)) /\
+     manet_is_public a = true /\ is_ip_loopback a = false) /\
+  (forall e a, key_ok = true -> sender <> self -> In e msg -> pe_id e = sender -> In a (pe_addrs e) ->
+     manet_is_public a = true -> In (sender, a) (add_provider_writes WAN key_ok self sender msg)).
+Proof.
+  intros key_ok self sender msg. split.
+  - intros q a H. apply add_provider_writes_spec in H. destruct H as [Hk [Hq [Hns [Hkeep Hex]]]].
+    destruct (keeps_wan a Hkeep) as [Hp Hl]. repeat split; assumption.
+  - intros e a Hk Hns He Hid Ha Hp. apply add_provider_writes_spec.
+    repeat split; try assumption. exists e. repeat split; assumption.
+Qed.
+
+Lemma wan_get_providers_spec : forall key_ok fit provs,
+  (forall r a, In r (get_providers_attached WAN key_ok fit provs) -> In a (pe_addrs r) ->
+     (exists e, In e provs /\ pe_id e = pe_id r /\ In a (pe_addrs e)) /\
+     manet_is_public a = true /\ is_ip_loopback a = false) /\
+  (forall e a, key_ok = true -> (length provs <= fit)%nat -> In e provs -> In a (pe_addrs e) ->
+     manet_is_public a = true ->
+     exists r, In r (get_providers_attached WAN key_ok fit provs) /\ pe_id r = pe_id e /\ In a (pe_addrs r)).
+Proof.
+  intros key_ok fit provs. split.
+  - intros r a Hr Ha. destruct (get_providers_attached_sound _ _ _ _ _ _ Hr Ha) as [_ [Hk Hex]].
+    destruct (keeps_wan a Hk) as [Hp Hl]. repeat split; assumption.
+  - intros e a Hk Hfit He Ha Hp. subst key_ok. apply get_providers_attached_complete; assumption.
+Qed.
+
+Lemma wan_find_providers_spec : forall self connected processed,
+  (forall q a, In (q, a) (find_providers_writes WAN self connected processed) ->
+     q <> self /\ connected q = false /\
+     (exists e, In e processed /\ pe_id e = q /\ In a (pe_addrs e)) /\
+     manet_is_public a = true /\ is_ip_loopback a = false) /\
+  (forall e a, In e processed -> pe_id e <> self -> connected (pe_id e) = false -> In a (pe_addrs e) ->
+     manet_is_public a = true -> In (pe_id e, a) (find_providers_writes WAN self connected processed)).
+Proof.
+  intros self connected processed. split.
+  - intros q a H. apply find_providers_writes_spec in H. destruct H as [Hns [Hc [Hk Hex]]].
+    destruct (keeps_wan a Hk) as [Hp Hl]. repeat split; assumption.
+  - intros e a He Hns Hc Ha Hp. apply find_providers_writes_spec.
+    repeat split; try assumption. exists e. repeat split; assumption.
+Qed.
+
+Lemma lan_provider_sites_spec : forall key_ok self sender msg fit provs connected processed,
+  (* inbound ADD_PROVIDER *)
+  (forall q a, In (q, a) (add_provider_writes LAN key_ok self sender msg) ->
+     q = sender /\ (exists e, In e msg /\ pe_id e = q /\ In a (pe_addrs e)) /\ is_ip_loopback a = false) /\
+  (forall e a, key_ok = true -> sender <> self -> In e msg -> pe_id e = sender -> In a (pe_addrs e) ->
+     is_ip_loopback a = false -> In (sender, a) (add_provider_writes LAN key_ok self sender msg)) /\
+  (* GET_PROVIDERS response *)
+  (forall r a, In r (get_providers_attached LAN key_ok fit provs) -> In a (pe_addrs r) ->
+     (exists e, In e provs /\ pe_id e = pe_id r /\ In a (pe_addrs e)) /\ is_ip_loopback a = false) /\
+  (forall e a, key_ok = true -> (length provs <= fit)%nat -> In e provs -> In a (pe_addrs e) ->
+     is_ip_loopback a = false ->
+     exists r, In r (get_providers_attached LAN key_ok fit provs) /\ pe_id r = pe_id e /\ In a (pe_addrs r)) /\
+  (* providers learned from a GET_PROVIDERS response *)
+  (forall q a, In (q, a) (find_providers_writes LAN self connected processed) ->
+     (exists e, In e processed /\ pe_id e = q /\ In a (pe_addrs e)) /\ is_ip_loopback a = false) /\
+  (forall e a, In e processed -> pe_id e <> self -> connected (pe_id e) = false -> In a (pe_addrs e) ->
+     is_ip_loopback a = false -> In (pe_id e, a) (find_providers_writes LAN self connected processed)).
+Proof.
+  intros key_ok self sender msg fit provs connected processed. repeat apply conj.
+  - intros q a H. apply add_provider_writes_spec in H. destruct H as [Hk [Hq [Hns [Hkeep Hex]]]].
+    apply keeps_lan in Hkeep. repeat split; assumption.
+  - intros e a Hk Hns He Hid Ha Hl. apply add_provider_writes_spec. apply keeps_lan in Hl.
+    repeat split; try assumption. exists e. repeat split; assumption.
+  - intros r a Hr Ha. destruct (get_providers_attached_sound _ _ _ _ _ _ Hr Ha) as [_ [Hk Hex]].
+    apply keeps_lan in Hk. split; assumption.
+  - intros e a Hk Hfit He Ha Hl. subst key_ok. apply keeps_lan in Hl. apply get_providers_attached_complete; assumption.
+  - intros q a H. apply find_providers_writes_spec in H. destruct H as [Hns [Hc [Hk Hex]]].
+    apply keeps_lan in Hk. split; assumption.
+  - intros e a He Hns Hc Ha Hl. apply find_providers_writes_spec. apply keeps_lan in Hl.
+    repeat split; try assumption. exists e. repeat split; assumption.
+Qed.
+
+(* an announcement whose addresses are all removed by the filter is still recorded (the
+   length test precedes the filter) but writes nothing *)
+Lemma add_provider_all_filtered : forall s self sender e,
+  pe_id e = sender -> pe_addrs e <> [] -> addr_filter s (pe_addrs e) = [] ->
+  add_provider_writes s true self sender [e] = [] /\ add_provider_recorded s true sender [e] = [sender] /\
+  add_provider_err s true sender [e] = false.
+Proof.
+  intros s self sender e Hid Hne Hf.
+  assert (Hacc : add_provider_accepts sender e = true).
+  { unfold add_provider_accepts. rewrite Hid, Nat.eqb_refl. simpl. destruct (pe_addrs e); [contradiction|reflexivity]. }
+  unfold add_provider_writes, add_provider_recorded, add_provider_err, add_provider_calls.
+  cbn [filter]. rewrite Hacc. cbn [map flat_map filter_entry pe_id pe_addrs app]. unfold pm_writes, filter_entry. cbn [pe_id pe_addrs].
+  rewrite Hf, Hid. destruct (Nat.eqb sender self); repeat split; reflexivity.
 Qed.
